@@ -9,6 +9,7 @@ import (
 	"encoding/base64"
 	"encoding/json"
 	"fmt"
+	"net"
 	"sync"
 	"time"
 
@@ -200,3 +201,19 @@ func (c *Client) WaitFor(pred func(Msg) bool, wait time.Duration) (Msg, bool) {
 }
 
 func (c *Client) Close() { c.Conn.Close() }
+
+// Reset drops the connection the way a vanished host does: the TCP connection is reset
+// (SO_LINGER 0), no TLS close_notify and no websocket close frame are sent.
+func (c *Client) Reset() bool {
+	tc, ok := c.Conn.UnderlyingConn().(*tls.Conn)
+	if !ok {
+		return false
+	}
+	raw, ok := tc.NetConn().(*net.TCPConn)
+	if !ok {
+		return false
+	}
+	raw.SetLinger(0)
+	raw.Close()
+	return true
+}
